@@ -356,6 +356,7 @@ func main() {
 			}
 		}
 		assertPtrOwnOnly := false
+		assertPtrNeedsPtr := false
 		if fd := common.FindFunc(fk, "typecheck", "typeAssertionExpr"); fd == nil {
 			unrec = append(unrec, "typecheck.go: typeAssertionExpr not found")
 		} else {
@@ -363,6 +364,9 @@ func main() {
 			switch {
 			case contains(fd, "if _, index := typ.lookupMethod(name); len(index) == 0 && "+tail+" {"):
 				assertPtrOwnOnly = true
+			case contains(fd, "if _, index := typ.lookupMethod(name); typ.TypeOf().Kind() != reflect.Ptr && (len(index) == 0 && tm.recv != nil && tm.recv.TypeOf().Kind() == reflect.Ptr || !isBin(typ) && typ.needsPtrForMethod(name)) {"):
+				// since 6b1f98f: also a promoted pointer-receiver method that does not cross an embedded pointer
+				assertPtrOwnOnly, assertPtrNeedsPtr = true, true
 			case contains(fd, "if "+tail+" {"):
 			default:
 				unrec = append(unrec, "typecheck.go typeAssertionExpr: pointer-receiver test not recognised")
@@ -690,7 +694,7 @@ func main() {
 		}
 
 		hT := common.HashTable(fsT, ft, [][2]string{{"itype", "lookupField"}, {"itype", "fieldIndex"}, {"itype", "lookupMethod"}, {"itype", "lookupMethod2"},
-			{"itype", "getMethod"}, {"itype", "methodDepth"}, {"itype", "methodCount"}, {"itype", "fieldCount"}, {"itype", "needsPtrFor"}, {"itype", "methods"}, {"methodSet", "contains"}, {"itype", "implements"}, {"", "lookupFieldOrMethod"}})
+			{"itype", "getMethod"}, {"itype", "methodDepth"}, {"itype", "methodCount"}, {"itype", "fieldCount"}, {"itype", "needsPtrFor"}, {"itype", "needsPtrForMethod"}, {"itype", "methods"}, {"methodSet", "contains"}, {"itype", "implements"}, {"", "lookupFieldOrMethod"}})
 		hC := common.HashTable(fsC, fc, [][2]string{{"", "matchSelectorMethod"}, {"", "getDefault"}})
 		hR := common.HashTable(fsR, fr, [][2]string{{"", "typeAssert"}, {"", "_case"}, {"", "implementsInterface"}, {"", "canAssertTypes"},
 			{"", "getMethod"}, {"", "getMethodByName"}, {"", "lookupMethodValue"}, {"", "stripReceiverFromArgs"}, {"", "genFunctionWrapper"}, {"", "genFunctionWrapperFor"}, {"", "genHostFunctionWrapper"}, {"", "genInterfaceWrapper"}, {"", "genInterfaceWrapperValue"}, {"", "copyDeferArg"}})
@@ -714,6 +718,7 @@ def facts : Facts :=
     fieldAmbiguityCheck := %v,
     implementsChecksRecv := %v,
     assertPtrOwnOnly := %v,
+    assertPtrNeedsPtr := %v,
     tswitchCasesChecked := %v,
     assertHostWrapsHeld := %v,
     wrapperUsesMethodSet := %v,
@@ -740,7 +745,7 @@ def sourceHashes : List (String × String) :=
    ("cfg.go post-order case typeSwitch", %s),
    ("genFunctionWrapper receiver binding", %s)]
 end YaegiVerif.Generated.C05
-`, defaultSwap, clauseChain, methodPick, ambCheck, embedOnly, fieldPick, namesOnly, common.LeanStr(methodWins), common.LeanStr(ambiguous), depthMinus, fieldAmb, implPtr, assertPtrOwnOnly, tswitchChecked, assertHostHeld, wrapperUsesMethodSet,
+`, defaultSwap, clauseChain, methodPick, ambCheck, embedOnly, fieldPick, namesOnly, common.LeanStr(methodWins), common.LeanStr(ambiguous), depthMinus, fieldAmb, implPtr, assertPtrOwnOnly, assertPtrNeedsPtr, tswitchChecked, assertHostHeld, wrapperUsesMethodSet,
 			atCreation, bind["ptrToVal"], bind["valToPtr"], bind["same"], bind["call"], lateNilNode, bind["lateCall"], ifaceWrapHeld, ifaceCopies, composed,
 			common.LeanStrList(unrec), hT, hC, hR, hK, hV, hU, common.LeanStr(selHash), common.LeanStr(preHash), common.LeanStr(postHash), common.LeanStr(tsHash), common.LeanStr(recvHash)), nil
 	})
